@@ -35,6 +35,7 @@ def drive(coro_factory, pick, competitors=(), maxsteps=2000):
         others = [loop.create_task(c()) for c in competitors]
         task = loop.create_task(coro_factory())
         steps = 0
+        escaped = None
         while not task.done():
             steps += 1
             if steps > maxsteps:
@@ -51,7 +52,12 @@ def drive(coro_factory, pick, competitors=(), maxsteps=2000):
             handle = loop._ready[i]
             del loop._ready[i]
             if not handle._cancelled:
-                handle._run()
+                try:
+                    handle._run()
+                except (SystemExit, KeyboardInterrupt) as ex:
+                    # asyncio sets these on the task AND lets them fly out of run_forever()/asyncio.run() to the caller
+                    escaped = ex
+                    break
         for t in others:
             t.cancel()
         # let cancellations settle
@@ -61,6 +67,10 @@ def drive(coro_factory, pick, competitors=(), maxsteps=2000):
             h = loop._ready.popleft()
             if not h._cancelled:
                 h._run()
+        if escaped is not None:
+            if task.done() and not task.cancelled():
+                task.exception()       # mark as retrieved
+            return None, escaped, steps
         exc = task.exception() if not task.cancelled() else asyncio.CancelledError()
         res = None if exc else task.result()
         return res, exc, steps
